@@ -10,6 +10,9 @@ CHECKS = {
  "C02": ("Generated-input search: random register-language configurations x typed program bodies x 8 register valuations; the emitted raw instructions are executed by an independent register machine (M-machine) and compared with truth's reference interpreter on the flattened source (call log with bit-exact arguments and real times, final time, final registers).",
          "Trusts AstVm as the source-side reference (named by the property) and the harness's own M-machine/M-ops. Programs bounded (<= ~30 statements, depth 3); time labels non-decreasing; NaN/inf and out-of-range float->int casts excluded.",
          "property-based differential testing against an independent machine model (proptest)"),
+ "C03": ("Sources for ANM / STD / MSG / END / mission / pre-TH10 ECL whose metadata fields take boundary values of 8/16/32-bit fields and whose scripts are raw-blob instructions with boundary times, opcodes, masks, arg0 values and blob lengths (0..65536 bytes); files with 255..70000 objects / sprites / table entries / subs (count fields); and the general generated sources of C01. Whenever compile succeeds: (1) the written bytes read back (same game) to an in-memory file that equals, field for field, the one the compiler produced, (2) every requested instruction (time, opcode, mask, arg0, blob) equals the re-read instruction at the same position, (3) every metadata value requested in the source equals the value in the decompiled re-read file wherever that field is printed; a rejection must carry an error diagnostic.",
+         "Representation-only differences are normalised (script/sprite names, sprite ids that equal the automatic numbering, absent @arg0 = 0, TH06 ECL parameter masks which that format does not store). Sprite ids are unique within an entry (the reader keeps one sprite per id and warns). Offsets > 4 GiB are out of reach.",
+         "property-based round-trip testing (compile / write / read back) with boundary-value generators and a requested-value oracle"),
  "C04": ("Texts = valid generated sources for ANM / STD / MSG / END / mission / pre-TH10 ECL | full-grammar random programs | programs nested up to 256 deep | bundled .spec files | short raw byte strings, after 0..4 token-level mutations (delete / duplicate / swap / move / class-preserving replacement / insertion from a vocabulary of keywords, operators, extreme literals, malformed strings, pseudo-arguments, labels / wrapping in up to 256 parens, unary operators, brackets, braces) and byte-level mutations (invalid UTF-8, NUL, BOM, truncation), compiled by the same or another tool and game; and mapfiles (built-in tables or generated languages rendered as text, mutated per line with signature / intrinsic / key / section vocabularies) loaded from disk before compiling a valid source. Ok must come without error diagnostics, Err with at least one; a panic (incl. a diagnostic that fails to render), abort, stack overflow or allocation request > 2 GiB is a violation.",
          "In-process mirror of the CLI compile commands (files.rs) on an 8 MiB stack like the CLI's main thread. A hang (60 s watchdog) is reported as inconclusive.",
          "grammar-based and mutation-based fuzzing with a crash / diagnostic-consistency oracle (proptest-driven)"),
